@@ -5,9 +5,12 @@ from .common import fn_hashes
 
 def build(repo, tier, seed):
     syn, und = template_c09.obligations(repo)
-    b = classlaws.bundle(repo, tier, seed, ("L1", "L2", "L5"), classes=["Option", "_AllOptions"], bounded=True)
+    from . import templated_keys_proof
+    v6, u6 = templated_keys_proof.build(repo)
+    v7, u7 = templated_keys_proof.option_contract(repo)
+    b = classlaws.bundle(repo, tier, seed, ("L1", "L2", "L5"), classes=["Option", "_AllOptions"], bounded=True, extra_vcs=v6 + v7)
     b["syntactic"] += syn
-    b["undecided"] += und
+    b["undecided"] += und + u6 + u7
     from harness import template_search
     wit, n = template_search.search(seed, 40 if tier == "quick" else 1500)
     b["bounded"].append({"what": "Template.evaluate against an independent substitution (transitive, escaped braces, parameters); keys/explain cover the keys it reads; templated Option defaults",
@@ -21,7 +24,7 @@ def build(repo, tier, seed):
     b["witness"] = witness
     b["assumptions"] += ["proved: Template.evaluate evaluates its parameters under the same options, performs the substitution by exactly one call resolve(template, mix(options, params)) and "
                          "returns its string form; a KeyError of the substitution becomes a KeyNotFoundError carrying the key; Option/AllOptions report the reads of templated values at any "
-                         "nesting depth relative to the contract of option._templated_keys (assumed, see DESIGN 12.2)",
+                         "nesting depth through the contract of option._templated_keys, which is PROVED against its recursive body (reads of the substitution are reported: TK-RD) relative to the assumed structure of confectioner.resolve",
                          "NOT decided by proof: the substitution itself (escaped braces, str() forms, transitive replacement) happens inside confectioner.resolve (assumed contract OptTheory.resolve); "
                          "Template.keys/explain/validate and Template.__init__'s parameter check are covered by the bounded real-code search only"]
     return b
